@@ -162,14 +162,16 @@ class Model:
 
     def listing(self, ref, pat):
         full = ref + pat
+        # RFC 3501 5.1: the name INBOX is case-insensitive, so a pattern matches it if it matches any spelling of it
         return {n for n in self.names | {'INBOX'} if glob_match(full, n) or
-                (n == 'INBOX' and glob_match(full.upper(), 'INBOX') and full.upper() == 'INBOX')}
+                (n == 'INBOX' and glob_match(full.upper(), 'INBOX'))}
 
 
 NAMES = ['a', 'a/b', 'a/b/c', 'ab', 'B', 'inbox', 'Inbox/x', 'a*b', 'a%b', 'q"uote', 'new\nline', 'é', 'a/é', 'Sent']
 PATTERNS = [('', '*'), ('', '%'), ('', 'a*'), ('', 'a%'), ('', 'a/%'), ('', '%/%'), ('a/', '%'), ('a', '%'), ('', 'a/b'),
             ('', '*b'), ('', 'INBOX'), ('', 'inbox'), ('', 'I%'), ('a/', '*'), ('', '%b'), ('', 'ab%'), ('', 'a%b'),
-            ('', '*e'), ('', '%\n%'), ('', 'é'), ('', 'S*t'), ('', 'Sent%'), ('', '%Sent'), ('', ''), ('a', '')]
+            ('', '*e'), ('', '%\n%'), ('', 'é'), ('', 'S*t'), ('', 'Sent%'), ('', '%Sent'), ('', ''), ('a', ''),
+            ('', 'inbox*'), ('', 'InBo%'), ('', '%x'), ('in', 'bo%'), ('', 'i*'), ('', '*X'), ('', 'inbox/%')]
 
 
 def ops(tier):
@@ -351,6 +353,16 @@ def bounded_names(label, backend='dict'):
                      ['Sent/Sent', 'Sent/x'], ['a', 'a/é', 'a/a*b']):
             for ren in (('a', 'z'), ('a/b', 'a/z'), ('a', 'B/a'), ('Sent', 'S2'), ('INBOX', 'old'), ('a/b', 'b')):
                 items.append((tuple(('create', n) for n in tree) + (('rename',) + ren,), True))
+        # the life cycle of a subscription: only SUBSCRIBE / UNSUBSCRIBE change the subscribed set (RFC 3501 6.3.6: the
+        # server does not drop a subscription by itself), whatever happens to the mailbox of that name meanwhile
+        for n in ('a', 'a/b', 'B', 'a*b', 'é', 'Sent'):
+            pre = (('create', 'a'),) if n == 'a/b' else ()
+            items.append((pre + (('create', n), ('subscribe', n), ('delete', n), ('create', n)), True))
+            items.append((pre + (('subscribe', n), ('create', n), ('delete', n), ('create', n), ('unsubscribe', n)), True))
+            items.append((pre + (('create', n), ('subscribe', n), ('rename', n, 'z'), ('rename', 'z', n)), True))
+            items.append((pre + (('create', n), ('subscribe', n), ('rename', n, 'z'), ('create', n)), True))
+            items.append((pre + (('create', n), ('subscribe', n), ('append', n), ('status', n), ('unsubscribe', n),
+                                 ('subscribe', n)), True))
         rnd = random.Random(seed)
         creates = [x for x in o if x[0] == 'create']
         for _ in range(700 if tier == 'quick' else 8000):
